@@ -272,9 +272,11 @@ func ChannelP(t Tier, r *Rng, emit Emit, encodeReal func(p string, maxLen, n int
 		capa := capacity(p)
 		var ns []int
 		ns = append(ns, boundary...)
+		// exhaustive up to 10^6 (2^20 for the byte-based families): ~50 M lines in the thorough
+		// tier; the ranges above are covered by the boundary list and the random sample
 		lim := t.N(1200, 1000000)
 		if strings.HasPrefix(p, "binary") || strings.HasPrefix(p, "hex") || p == "ber" {
-			lim = t.N(1200, 1<<24)
+			lim = t.N(1200, 1<<20)
 		}
 		if capa+2 < lim {
 			lim = capa + 2
